@@ -83,6 +83,7 @@ class Verifier(HeapMaps):
         self.reset_path(script)
         binding = {}
         node = self.fi.node
+        self.check_decorators(self.fi)
         a = node.args
         names = [x.arg for x in a.posonlyargs + a.args] + [x.arg for x in a.kwonlyargs]
         if a.vararg:
@@ -692,8 +693,17 @@ class Verifier(HeapMaps):
             rep["status"] = "vacuous"
             rep["reason"] = "requires clauses are unsatisfiable"
         obs = [self.obligations[k] for k in self.ob_order]
+        failed_clauses = {}
         for ob in obs:
-            self.discharge(ob, timeout_ms)
+            ckey = (ob.kind, ob.info.get("clause_text") or ob.info.get("clause"))
+            if ckey[1] and failed_clauses.get(ckey, 0) >= 2:
+                # the same clause already failed on two other paths of this function: one violation is reported per (function, clause), so the
+                # remaining paths are not solved again (failing queries are the slow ones)
+                ob.result, ob.backend, ob.reason, ob.model, ob.time = "failed", "none", "same clause already failed on two other paths (not solved again)", None, 0.0
+            else:
+                self.discharge(ob, timeout_ms)
+                if ob.result == "failed" and ckey[1]:
+                    failed_clauses[ckey] = failed_clauses.get(ckey, 0) + 1
             if os.environ.get("PYVC_TRACE"):
                 sys.stderr.write("[trace] %-60s %-10s %-5s %.2fs pc=%d %s\n" % (ob.name[-60:], ob.result, ob.backend, ob.time, len(ob.pc), getattr(ob, 'reason', '')[:60]))
             rep["obligations"].append({"name": ob.name, "kind": ob.kind, "level": ob.level, "result": ob.result, "backend": ob.backend,
